@@ -14,7 +14,7 @@ TABLE = {
                 thorough=[dict(n=40, blocks=40), dict(n=40, blocks=40, seed_off=50), dict(n=30, blocks=30, boundary=True),
                           dict(n=30, blocks=60, maxtx=8, seed_off=70)],
                 need=[("transfer", True), ("staking", True), ("unstaking", True), ("withdraw", True), ("evidence", True)]),
-    "C04": dict(evm=True, directed=["evm_sweep_to_zero", "native_to_contract", "evm_basic", "evm_fail", "evm_mixed", "evm_selfdestruct", "transfer_to_created", "nonce_replay", "fee_edges", "setdoc_and_accounts"],
+    "C04": dict(evm=True, directed=["evm_nested_revert", "evm_sweep_to_zero", "native_to_contract", "evm_basic", "evm_fail", "evm_mixed", "evm_selfdestruct", "transfer_to_created", "nonce_replay", "fee_edges", "setdoc_and_accounts"],
                 quick=[dict(n=8, blocks=20, maxtx=7)],
                 thorough=[dict(n=50, blocks=40, maxtx=8), dict(n=50, blocks=40, maxtx=8, seed_off=31)],
                 need=[("transfer", True), ("transfer", False), ("staking", True)]),
@@ -51,8 +51,8 @@ TABLE = {
                 quick=[dict(n=8, blocks=25, maxtx=7)],
                 thorough=[dict(n=60, blocks=40, maxtx=8), dict(n=60, blocks=40, maxtx=8, seed_off=41)],
                 need=[("transfer", True), ("transfer", False), ("withdraw", True)]),
-    "C03": dict(directed=["mutation_matrix", "nonce_replay"],
-                directed_thorough=["mutation_matrix_full", "mutation_matrix", "nonce_replay"],
+    "C03": dict(directed=["forged_after_credit", "mutation_matrix", "nonce_replay"],
+                directed_thorough=["forged_after_credit", "mutation_matrix_full", "mutation_matrix", "nonce_replay"],
                 quick=[dict(n=4, blocks=20, maxtx=7)],
                 thorough=[dict(n=40, blocks=40, maxtx=8), dict(n=20, blocks=30, boundary=True)],
                 need=[("transfer", True), ("transfer", False), ("voting", True), ("proposal", True), ("setdoc", True), ("unstaking", True), ("withdraw", True)]),
